@@ -36,7 +36,7 @@ class Frag:
     def __init__(self, name, file, qual, atoms, outputs='return', mutable=(), ignore=(), inline=(), select=None,
                  unroll=None, ret='Bool', props=(), doc='', consts=None, fallthrough=None, locals_=None,
                  properties_of=None, params=None, param_types=None, alias=None,
-                 raise_codes=None):
+                 raise_codes=None, continue_value=None, yield_value=None, init=None, marks=None):
         self.name = name              # Lean name (in namespace Gen)
         self.file = file              # path below the repository root
         self.qual = qual              # 'Class.method' / 'func.inner'
@@ -55,6 +55,10 @@ class Frag:
         self.params = params
         self.alias = dict(alias or {})      # {python source: python source translated in its place}
         self.raise_codes = list(raise_codes or [])   # [(substring of the message, integer result)]
+        self.continue_value = continue_value   # (lean term, type): result of the fragment when `continue` is reached
+        self.yield_value = yield_value         # (lean term, type): result when a `yield` statement is reached
+        self.init = dict(init or {})           # initial values of locals {python name: (lean term, type)}
+        self.marks = [(re.compile(p_), v_) for p_, v_ in (marks or [])]   # [(statement regex, (local, lean term, type))]
         self.param_types = dict(param_types or {})
         self.properties_of = properties_of  # class name whose @property one-liners are inlined for `self.x`
 
@@ -184,8 +188,21 @@ class Translator:
             for op, right in zip(node.ops, node.comparators):
                 if type(op) not in ops:
                     raise Untranslatable('comparison `%s` (declare it as an atom)' % _src(node))
-                x, tx = self.expr(left, env)
-                y, ty = self.expr(right, env)
+                if isinstance(right, ast.BinOp) and isinstance(right.op, ast.Div) and isinstance(right.right, ast.Constant) \
+                        and isinstance(right.right.value, int) and right.right.value > 0 and self.atom(right, env) is None:
+                    # `a < b / c` (true division by a positive integer constant) is `a * c < b` over the integers
+                    left2 = ast.BinOp(left=left, op=ast.Mult(), right=right.right)
+                    x, tx = self.expr(left2, env)
+                    y, ty = self.expr(right.left, env)
+                elif isinstance(left, ast.BinOp) and isinstance(left.op, ast.Div) and isinstance(left.right, ast.Constant) \
+                        and isinstance(left.right.value, int) and left.right.value > 0 and self.atom(left, env) is None:
+                    # `b / c > a`: the same, the other way round
+                    right2 = ast.BinOp(left=right, op=ast.Mult(), right=left.right)
+                    x, tx = self.expr(left.left, env)
+                    y, ty = self.expr(right2, env)
+                else:
+                    x, tx = self.expr(left, env)
+                    y, ty = self.expr(right, env)
                 if tx != ty:
                     raise Untranslatable('comparison of %s with %s in `%s`' % (tx, ty, _src(node)))
                 if tx == 'Bool' and not isinstance(op, (ast.Eq, ast.NotEq)):
@@ -213,6 +230,15 @@ class Translator:
                 self.need(ty, 'Int', node.args[1])
                 # Python: min(a, b) returns a unless b < a; max(a, b) returns a unless b > a -- same value as Lean's
                 return ('(%s %s %s)' % (fn, x, y), 'Int')
+            if fn == 'np.where' and len(node.args) == 3 and not node.keywords:
+                # element-wise selection: translated for one element
+                c, tc = self.expr(node.args[0], env)
+                self.need(tc, 'Bool', node.args[0])
+                x, tx = self.expr(node.args[1], env)
+                y, ty = self.expr(node.args[2], env)
+                if tx != ty:
+                    raise Untranslatable('branches of `%s` have different types' % _src(node))
+                return ('(if %s then %s else %s)' % (c, x, y), tx)
             if fn in self.f.inline and not node.keywords:
                 name = self.helper(fn)
                 args = [self.expr(a_, env) for a_ in node.args]
@@ -320,6 +346,12 @@ class Translator:
                 return cont(env)
             return self.finish(env, outputs)
         s, rest = stmts[0], stmts[1:]
+        for pat, (var, term, ty_) in self.f.marks:
+            if pat.search(_src(s)):
+                # a statement whose effect is recorded as the value of a local (e.g. "the footprint was cleared")
+                env2 = dict(env)
+                env2[var] = (term, ty_)
+                return self.block(rest, env2, cont, outputs)
         if isinstance(s, ast.Pass) or self.ignored(s):
             return self.block(rest, env, cont, outputs)
         if isinstance(s, ast.Return):
@@ -338,8 +370,12 @@ class Translator:
             return ('none', 'RAISE')
         if isinstance(s, ast.Continue):
             if cont is None:
+                if self.f.continue_value is not None:
+                    return self.f.continue_value
                 raise Untranslatable('continue outside an unrolled loop')
             return cont(env)
+        if isinstance(s, ast.Expr) and isinstance(s.value, ast.Yield) and self.f.yield_value is not None:
+            return self.f.yield_value
         if isinstance(s, ast.If):
             c, tc = self.expr(s.test, env)
             self.need(tc, 'Bool', s.test)
@@ -397,7 +433,7 @@ class Translator:
             stmts = self.f.select(stmts)
             if not stmts:
                 raise Untranslatable('the statements this fragment is made of were not found in %s' % self.f.qual)
-        body, ty = self.block(stmts, {}, None, self.f.outputs)
+        body, ty = self.block(stmts, dict(self.f.init), None, self.f.outputs)
         if ty == 'RAISE':
             raise Untranslatable('fragment always raises')
         if self.raises:
